@@ -252,8 +252,56 @@ func minLen(b *ssa.BasicBlock, x ssa.Value, depth int) int64 {
 				best = m
 			}
 		}
+	case *ssa.Parameter:
+		// what every call site guarantees about the argument (helpers extracted from a function keep its facts)
+		m := int64(1 << 40)
+		sites := callSitesOf(v.Parent())
+		if len(sites) == 0 {
+			break
+		}
+		idx := -1
+		for i, prm := range v.Parent().Params {
+			if prm == v {
+				idx = i
+			}
+		}
+		for _, site := range sites {
+			args := site.Common().Args
+			if idx < 0 || idx >= len(args) {
+				m = 0
+				break
+			}
+			if k := minLen(site.Block(), args[idx], depth+1); k < m {
+				m = k
+			}
+		}
+		if m != 1<<40 && m > best {
+			best = m
+		}
 	}
 	return best
+}
+
+// callSitesOf lists the static call sites of fn in the analysed program (for a generic function: of all its instantiations
+// when fn is the generic, of this instantiation otherwise).
+func callSitesOf(fn *ssa.Function) []ssa.CallInstruction {
+	pp := programOf(fn.Prog)
+	if pp == nil || pp.CG == nil {
+		return nil
+	}
+	var out []ssa.CallInstruction
+	for f, node := range pp.CG.Nodes {
+		if f != fn && !(f != nil && f.Origin() == fn) {
+			continue
+		}
+		for _, e := range node.In {
+			if e.Site == nil {
+				return nil // called in a way that has no site (reflection, library callback): no facts
+			}
+			out = append(out, e.Site)
+		}
+	}
+	return out
 }
 
 func ruleEConstIndex(p *Program, r *Reporter) {
